@@ -32,7 +32,8 @@
  *                              client i prepares a request: m = g (GET) | p (POST, Content-Length B) |
  *                              c (POST, chunked, B body bytes in chunks of c); k = 1 keep-alive / 0 Connection: close;
  *                              z = s (small response) | b (big response); H = exact length of the request head
- *                              (ignored while the client waits in the listen queue with bytes already sent)
+ *                              (q, f and x are ignored while the client waits in the listen queue with bytes
+ *                              already sent)
  *            s<i>,<n>          client i sends the next n bytes of its prepared request (0 = the rest)
  *            r<i>              client i reads everything currently available
  *            R<i>              client i keeps reading until the server has nothing more to send
@@ -196,6 +197,7 @@ static void op_lc(void) {
 #define BIGRESP (16u << 20)
 typedef struct {
     int used, fd, accepted, eof, rderr, closed;
+    size_t pre;                /* bytes sent while no connection of this client had been seen yet */
     char name[32];             /* abstract AF_UNIX name (without the leading NUL) */
     char *req; size_t reqlen, reqoff;
     char statuses[128];
@@ -328,6 +330,12 @@ static connection *cl_con(const client_t *c) {
     return NULL;
 }
 
+/* a client that has sent bytes without having been seen with a connection (it waits in the listen queue):
+ * a new request, FIN or close of such a client is outside the scenario language */
+static int cl_stranded(const client_t *c) {
+    return c->pre > 0 && !c->accepted && NULL == cl_con(c);
+}
+
 /* ---- observation ---------------------------------------------------------------- */
 static char *obuf; static size_t olen, ocap;
 static void oput(const char *fmt, ...) {
@@ -421,8 +429,7 @@ static void do_op(const char *op) {
       case 'q': {
         char m = 'g', z = 's'; int k = 1; unsigned long H = 0, B = 0, csz = 0;
         if (sscanf(rest, ",%c,%d,%c,%lu,%lu,%lu", &m, &k, &z, &H, &B, &csz) < 5) { g_failed = 1; return; }
-        /* (a client that has already sent bytes while still waiting in the listen queue keeps its request) */
-        if (c->req && c->reqoff && !c->accepted && NULL == cl_con(c)) break;
+        if (cl_stranded(c)) break;
         cl_prepare(c, m, k, z, H, B, csz);
         break;
       }
@@ -430,19 +437,21 @@ static void do_op(const char *op) {
         unsigned long n = 0;
         if (*rest == ',') n = strtoul(rest + 1, NULL, 10);
         if (!c->req) break;
+        const int waiting = (!c->accepted && NULL == cl_con(c));
         size_t left = c->reqlen - c->reqoff;
         if (0 == n || n > left) n = left;
         while (n) {
             ssize_t w = send(c->fd, c->req + c->reqoff, n, MSG_NOSIGNAL | MSG_DONTWAIT);
             if (w <= 0) { if (w < 0 && errno == EINTR) continue; break; }
             c->reqoff += (size_t)w; n -= (size_t)w;
+            if (waiting) c->pre += (size_t)w;
         }
         break;
       }
       case 'r': cl_read(c); break;
       case 'R': g_sticky = cl_read(c) ? (int)(c - cl) + 1 : 0; break;
-      case 'f': shutdown(c->fd, SHUT_WR); break;
-      case 'x': close(c->fd); c->fd = -1; c->closed = 1; break;
+      case 'f': if (!cl_stranded(c)) shutdown(c->fd, SHUT_WR); break;
+      case 'x': if (!cl_stranded(c)) { close(c->fd); c->fd = -1; c->closed = 1; } break;
       case 'G':                                   /* as sigaction_handler() does for SIGINT */
         if (graceful_shutdown) {
             if (2 == graceful_restart) graceful_restart = 1;
